@@ -5,6 +5,12 @@
 // and an SDK MeterProvider (ManualReader).  After every call the spans the hook started,
 // how often each was ended, its status and parent, and the request-counter data points are
 // read back and compared with the ledger the specification predicts.
+//
+// Whether a span RECORDS and whether it is SAMPLED are the tracer's decisions and independent
+// of each other: the specification's sampler tables (root / sampled parent / unsampled parent
+// -> drop | record | sample | noop) are implemented by SDK samplers (ParentBased with per-case
+// delegates, AlwaysRecord, a constant RecordOnly sampler) and, for "noop", by handing Start to
+// the API's no-op tracer.
 package otelhook
 
 import (
@@ -41,6 +47,7 @@ import (
 	sdktrace "go.opentelemetry.io/otel/sdk/trace"
 	"go.opentelemetry.io/otel/sdk/trace/tracetest"
 	"go.opentelemetry.io/otel/trace"
+	tracenoop "go.opentelemetry.io/otel/trace/noop"
 
 	"verif/harness/internal/replay"
 )
@@ -173,18 +180,39 @@ type wspan struct {
 	trace.Span
 	n         int64 // request number this span was started under (0 = unknown)
 	recording bool  // IsRecording() right after Start
+	sampled   bool  // SpanContext().IsSampled() right after Start
 	ends      atomic.Int32
 	lastCode  atomic.Int32
+	touches   atomic.Int32 // calls made on the span after Start (status, attributes, error, end)
 	tel       *telemetry
 }
 
+func (s *wspan) SetAttributes(kv ...attribute.KeyValue) {
+	s.touches.Add(1)
+	s.Span.SetAttributes(kv...)
+}
+func (s *wspan) RecordError(err error, o ...trace.EventOption) {
+	s.touches.Add(1)
+	s.Span.RecordError(err, o...)
+}
+func (s *wspan) AddEvent(name string, o ...trace.EventOption) {
+	s.touches.Add(1)
+	s.Span.AddEvent(name, o...)
+}
+func (s *wspan) SetName(name string) {
+	s.touches.Add(1)
+	s.Span.SetName(name)
+}
+
 func (s *wspan) End(o ...trace.SpanEndOption) {
+	s.touches.Add(1)
 	s.ends.Add(1)
 	code := codes.Code(s.lastCode.Load())
 	s.tel.event(map[string]any{"ev": "span_end", "n": s.n, "status": statusName(code), "recording": s.recording})
 	s.Span.End(o...)
 }
 func (s *wspan) SetStatus(c codes.Code, d string) {
+	s.touches.Add(1)
 	if s.ends.Load() == 0 {
 		s.lastCode.Store(int32(c))
 	}
@@ -196,15 +224,36 @@ type wtracer struct {
 	tel *telemetry
 }
 
+// parentClass is the row of the sampler table that applies to a span started under ctx:
+// 0 = no valid parent, 1 = parent with the sampled flag, 2 = parent without it.
+func parentClass(ctx context.Context) int {
+	psc := trace.SpanContextFromContext(ctx)
+	switch {
+	case !psc.IsValid():
+		return 0
+	case psc.IsSampled():
+		return 1
+	}
+	return 2
+}
+
 func (t wtracer) Start(ctx context.Context, name string, o ...trace.SpanStartOption) (context.Context, trace.Span) {
 	n := reqNum(ctx)
-	ctx2, sp := t.Tracer.Start(ctx, name, o...)
-	ws := &wspan{Span: sp, n: n, recording: sp.IsRecording(), tel: t.tel}
+	var ctx2 context.Context
+	var sp trace.Span
+	if t.tel.table[parentClass(ctx)] == "noop" {
+		// no SDK behind this decision: the API's no-op tracer hands back a non-recording
+		// span that carries the caller's span context (flags included) unchanged
+		ctx2, sp = tracenoop.NewTracerProvider().Tracer(name).Start(ctx, name, o...)
+	} else {
+		ctx2, sp = t.Tracer.Start(ctx, name, o...)
+	}
+	ws := &wspan{Span: sp, n: n, recording: sp.IsRecording(), sampled: sp.SpanContext().IsSampled(), tel: t.tel}
 	t.tel.mu.Lock()
 	t.tel.spans = append(t.tel.spans, ws)
 	t.tel.mu.Unlock()
 	if t.tel.onEvent != nil {
-		ev := map[string]any{"ev": "span_start", "n": n, "recording": ws.recording, "parent": "-", "ts": "-"}
+		ev := map[string]any{"ev": "span_start", "n": n, "recording": ws.recording, "sampled": ws.sampled, "parent": "-", "ts": "-"}
 		if ro, ok := sp.(sdktrace.ReadOnlySpan); ok && ws.recording {
 			x, _ := t.tel.reqs.Load(n)
 			xc, _ := x.(tctx)
@@ -247,6 +296,8 @@ type telemetry struct {
 	mu     sync.Mutex
 	spans  []*wspan
 	adds    atomic.Int64 // Add calls seen on rpc.server.requests
+	table   [3]string    // the tracer's decision per parent class (see samplerTable)
+	recExc  bool         // OtelConfig.RecordExceptions
 	reqs    sync.Map     // request number -> tctx (trace recording only)
 	onEvent func(map[string]any)
 }
@@ -325,15 +376,91 @@ type sut struct {
 	wg     sync.WaitGroup
 }
 
+// constSampler answers one fixed decision; like the SDK's own samplers it hands the parent's
+// tracestate on to the new span.
+type constSampler struct{ d sdktrace.SamplingDecision }
+
+func (c constSampler) ShouldSample(p sdktrace.SamplingParameters) sdktrace.SamplingResult {
+	return sdktrace.SamplingResult{Decision: c.d, Tracestate: trace.SpanContextFromContext(p.ParentContext).TraceState()}
+}
+func (c constSampler) Description() string { return fmt.Sprintf("verifConst{%d}", c.d) }
+
+// samplerTable decodes the specification's sampler names (SamplerTable in OtelHook.tla).
+func samplerTable(name string) ([3]string, error) {
+	switch name {
+	case "parentbased", "":
+		return [3]string{"sample", "sample", "drop"}, nil
+	case "always":
+		return [3]string{"sample", "sample", "sample"}, nil
+	case "never":
+		return [3]string{"drop", "drop", "drop"}, nil
+	}
+	var t [3]string
+	if len(name) != 5 || !strings.HasPrefix(name, "t_") {
+		return t, fmt.Errorf("unknown sampler %q", name)
+	}
+	for i, ch := range name[2:] {
+		d, ok := map[rune]string{'d': "drop", 'r': "record", 's': "sample", 'n': "noop"}[ch]
+		if !ok {
+			return t, fmt.Errorf("unknown decision %q in sampler %q", ch, name)
+		}
+		t[i] = d
+	}
+	return t, nil
+}
+
+// sdkSampler builds an SDK sampler that implements table.  Where the SDK ships a sampler with
+// exactly that behaviour it is used (drawn against the generic construction, which is
+// ParentBased with one constant delegate per case); "noop" rows never reach the SDK (wtracer).
+func sdkSampler(name string, table [3]string, rng *rand.Rand) sdktrace.Sampler {
+	one := func(d string) sdktrace.Sampler {
+		switch d {
+		case "sample":
+			return sdktrace.AlwaysSample()
+		case "record":
+			if rng.Intn(2) == 0 {
+				return sdktrace.AlwaysRecord(sdktrace.NeverSample())
+			}
+			return constSampler{sdktrace.RecordOnly}
+		}
+		return sdktrace.NeverSample()
+	}
+	switch name {
+	case "always":
+		return sdktrace.AlwaysSample()
+	case "never":
+		return sdktrace.NeverSample()
+	case "parentbased", "":
+		return sdktrace.ParentBased(sdktrace.AlwaysSample())
+	}
+	if rng.Intn(2) == 0 {
+		switch table {
+		case [3]string{"record", "record", "record"}:
+			return sdktrace.AlwaysRecord(sdktrace.NeverSample())
+		case [3]string{"sample", "sample", "record"}:
+			return sdktrace.AlwaysRecord(sdktrace.ParentBased(sdktrace.AlwaysSample()))
+		case [3]string{"sample", "sample", "sample"}:
+			return sdktrace.AlwaysSample()
+		case [3]string{"drop", "drop", "drop"}:
+			return sdktrace.NeverSample()
+		}
+	}
+	return sdktrace.ParentBased(one(table[0]),
+		sdktrace.WithRemoteParentSampled(one(table[1])),
+		sdktrace.WithRemoteParentNotSampled(one(table[2])))
+}
+
 func newSUT(cfg hookCfg, rng *rand.Rand) *sut {
 	tel := &telemetry{rec: tracetest.NewSpanRecorder(), reader: sdkmetric.NewManualReader()}
+	table, err := samplerTable(cfg.Sampler)
+	if err != nil {
+		panic("harness: " + err.Error())
+	}
+	tel.table = table
 	var sampler sdktrace.Sampler
-	switch cfg.Sampler {
-	case "always":
-		sampler = sdktrace.AlwaysSample()
-	case "never":
-		sampler = sdktrace.NeverSample()
-	default:
+	if cfg.Tracing {
+		sampler = sdkSampler(cfg.Sampler, table, rng)
+	} else {
 		sampler = sdktrace.ParentBased(sdktrace.AlwaysSample())
 	}
 	tp := sdktrace.NewTracerProvider(sdktrace.WithSampler(sampler), sdktrace.WithSpanProcessor(tel.rec))
@@ -349,6 +476,7 @@ func newSUT(cfg hookCfg, rng *rand.Rand) *sut {
 		EnableMetrics:    cfg.Metrics,
 		RecordExceptions: rng.Intn(2) == 0,
 	}
+	tel.recExc = oc.RecordExceptions
 	if cfg.Prop == "w3c" {
 		oc.Propagator = propagation.TraceContext{}
 	} // "global": left nil -> otel.GetTextMapPropagator(), never set in this process
@@ -863,6 +991,16 @@ func (t *telemetry) ended(sid trace.SpanID) (n int, last sdktrace.ReadOnlySpan) 
 	return
 }
 
+func exceptionEvents(sp sdktrace.ReadOnlySpan) int {
+	n := 0
+	for _, e := range sp.Events() {
+		if e.Name == "exception" {
+			n++
+		}
+	}
+	return n
+}
+
 func describeParent(sp sdktrace.ReadOnlySpan, x tctx) string {
 	p := sp.Parent()
 	if !p.IsValid() {
@@ -964,22 +1102,27 @@ func (st *stepper) observe(c *client, x tctx, res result) (replay.Obs, error) {
 
 	notes := []string{strings.TrimSpace(res.note)}
 	spans, parents, states, statuses := []any{}, []any{}, []any{}, []any{}
+	flags, excOK := []any{}, []any{}
 	for _, ws := range mine {
+		flags = append(flags, map[string]any{"rec": ws.recording, "sampled": ws.sampled})
 		if !ws.recording {
-			if e := ws.ends.Load(); e > 0 {
-				notes = append(notes, fmt.Sprintf("non-recording span ended %d times", e))
+			if e, tc := ws.ends.Load(), ws.touches.Load(); e > 0 || tc > 0 {
+				notes = append(notes, fmt.Sprintf("non-recording span (sampled=%v) ended %d times, %d calls made on it", ws.sampled, e, tc))
 			}
 			continue
 		}
 		ends := int(ws.ends.Load())
 		nrec, ro := tel.ended(ws.SpanContext().SpanID())
 		code := codes.Code(ws.lastCode.Load())
+		excs := -1
 		if ro != nil {
 			code = ro.Status().Code
+			excs = exceptionEvents(ro)
 			parents = append(parents, describeParent(ro, x))
 			states = append(states, describeState(ro.SpanContext().TraceState().String(), x))
 		} else if live, ok := ws.Span.(sdktrace.ReadOnlySpan); ok {
 			// never ended: read parent and tracestate off the live span
+			excs = exceptionEvents(live)
 			parents = append(parents, describeParent(live, x))
 			states = append(states, describeState(live.SpanContext().TraceState().String(), x))
 		} else {
@@ -995,10 +1138,21 @@ func (st *stepper) observe(c *client, x tctx, res result) (replay.Obs, error) {
 		}
 		spans = append(spans, map[string]any{"ends": ends, "err": code == codes.Error})
 		statuses = append(statuses, statusName(code))
+		wantExc := 0
+		if tel.recExc && code == codes.Error {
+			wantExc = 1
+		}
+		if excs != wantExc {
+			notes = append(notes, fmt.Sprintf("span has %d exception events, status %s, RecordExceptions=%v", excs, statusName(code), tel.recExc))
+		}
+		excOK = append(excOK, excs == wantExc)
 	}
-	open, multi := 0, 0
+	open, multi, touched := 0, 0, 0
 	for _, ws := range all {
 		if !ws.recording {
+			if ws.touches.Load() > 0 {
+				touched++
+			}
 			continue
 		}
 		switch e := ws.ends.Load(); {
@@ -1026,6 +1180,7 @@ func (st *stepper) observe(c *client, x tctx, res result) (replay.Obs, error) {
 		"count": count, "count_free": count,
 		"total": total, "total_free": total,
 		"open": open, "multi": multi,
+		"flags": flags, "touched": touched, "exc_ok": excOK,
 		"status": statuses, "tstate": states,
 		"durations": dur, "client_err": res.clientErr, "stream": c.kind,
 		"__note__": strings.Join(notes, "; "),
